@@ -63,10 +63,46 @@ CONS = [[], ['where int(<chk>) == 7'], ['where int(<chk>) > 7', 'where int(<len>
 GEN_SYMS = ["<tag>", "<len>", "<chk>", "<wrap>"]
 
 
-def fields_of(tree):
+# further search scenarios: (generator library + grammar, generator-defined symbols, constraint sets)
+PAIR = ('''
+import random
+CALLS = []
+def g_id():
+    v = "".join(random.choice("0123456789") for _ in range(3))
+    CALLS.append(("<id>", [], v))
+    return v
+<start> ::= <req> ";" <resp>
+<req> ::= <rec>
+<resp> ::= <rec>
+<rec> ::= <id> ":" <body>
+<id> ::= <digit>{3} := g_id()
+<body> ::= <digit>{2}
+<digit> ::= "0" | "1" | "2" | "3" | "4" | "5" | "6" | "7" | "8" | "9"
+''', ["<id>"],
+        # an equality between two occurrences of one symbol, spanning a generated field: its repair copies a whole record
+        [['where <req>.<rec> == <resp>.<rec>'], ['where <req>.<rec> == <resp>.<rec>', 'where int(<body>) > 40'],
+         ['where str(<req>..<body>) == str(<resp>..<body>)'], ['where int(<req>..<body>) < int(<resp>..<body>)']])
+PARTIAL = ('''
+CALLS = []
+def g_len(x):
+    v = str(len(str(x)))
+    CALLS.append(("<len>", [str(x)], v))
+    return v
+<start> ::= <body> ":" <len> ":" <tail>
+<body> ::= <ch>{1,12}
+<ch> ::= "a" | "b" | "c"
+<len> ::= <digit> := g_len(<body>)
+<tail> ::= <digit>{0,2}
+<digit> ::= "0" | "1" | "2" | "3" | "4" | "5" | "6" | "7" | "8" | "9"
+''', ["<len>"],
+           # the generator is partial for its rule: a body of ten or more characters has no one-digit length
+           [['where str(<body>).count("a") >= 3'], ['where len(str(<body>)) >= 7'], ['where str(<body>).count("b") >= 2', 'where len(str(<tail>)) == 1']])
+
+
+def fields_of(tree, syms=None):
     from fandango.language.symbols import NonTerminal
     out = []
-    for sym in GEN_SYMS:
+    for sym in (syms or GEN_SYMS):
         for n in tree.find_all_trees(NonTerminal(sym)):
             # only fields that sit in the tree itself (sources hold argument trees, not fields of the output)
             cur, inside_source = n, False
@@ -84,10 +120,12 @@ def fields_of(tree):
 def _search(args):
     from harness.fan import make, normalise, quiet
     from harness.search_driver import operator_probes
-    cons, seed, tid = args
+    cons, seed, tid = args[:3]
+    scen = args[3] if len(args) > 3 else None
     quiet()
     normalise(seed)
-    spec = LIB + SEARCH_GRAMMAR + "\n".join(cons) + "\n"
+    spec = (LIB + SEARCH_GRAMMAR if scen is None else scen[0]) + "\n".join(cons) + "\n"
+    syms = None if scen is None else scen[1]
     f = make(spec)
     calls = f.grammar._global_variables["CALLS"]
     events = []
@@ -103,7 +141,7 @@ def _search(args):
 
     def observe(tree, label):
         flush()
-        events.append({"ev": "F", "tid": tid, "idx": idx[0], "fields": fields_of(tree), "label": label, "text": str(tree)})
+        events.append({"ev": "F", "tid": tid, "idx": idx[0], "fields": fields_of(tree, syms), "label": label, "text": str(tree)})
         idx[0] += 1
 
     def sink(kind, ins, outs):
@@ -131,10 +169,13 @@ def _replay_chunk(hists):
     from harness.fan import make, normalise, quiet
     quiet()
     normalise(0)
-    f = make(LIB + GRAMMAR)
+    f = make(LIB + REPLAY_GRAMMAR)
     g = f.grammar
     viol = []
     steps = 0
+
+    def body_text(n):
+        return ("abc" * 4)[:n]
 
     def field(tree, sym):
         return [n for n in tree.find_direct_trees(NonTerminal(sym))][0]
@@ -144,17 +185,27 @@ def _replay_chunk(hists):
     for h in hists:
         init = h[0]
         # build the initial tree with the recorded arguments of the model state
-        tree = g.fuzz("<start>", 40)
+        tree = None
+        while tree is None:
+            try:
+                tree = g.fuzz("<start>", 40)
+            except Exception:  # noqa  (a body of ten characters has no one-digit length: generation raises, draw again)
+                pass
         tree = tree.replace(g, src(field(tree, "<chk>"), "<p>"), g.parse(str(init["p"]), "<p>"))
         tree = tree.replace(g, src(field(tree, "<chk>"), "<q>"), g.parse(str(init["q"]), "<q>"))
-        tree = tree.replace(g, src(field(tree, "<len>"), "<body>"), g.parse("abc"[:init["body"]], "<body>"))
+        tree = tree.replace(g, src(field(tree, "<len>"), "<body>"), g.parse(body_text(init["body"]), "<body>"))
         tag0 = str(field(tree, "<tag>"))
         for k, st in enumerate(h):
             steps += 1
             if st["op"] == "set_arg":
                 fld, sym = ("<len>", "<body>") if st["arg"] == "body" else ("<chk>", "<" + st["arg"] + ">")
-                new = g.parse("abc"[:st["v"]], "<body>") if st["arg"] == "body" else g.parse(str(st["v"]), sym)
+                new = g.parse(body_text(st["v"]), "<body>") if st["arg"] == "body" else g.parse(str(st["v"]), sym)
                 tree = tree.replace(g, src(field(tree, fld), sym), new)
+            elif st["op"] == "set_arg_refused":
+                try:
+                    tree = tree.replace(g, src(field(tree, "<len>"), "<body>"), g.parse(body_text(st["v"]), "<body>"))
+                except Exception:  # noqa
+                    pass    # refused by raising: the tree stays as it was
             elif st["op"] == "edit_generated":
                 fld = "<" + st["arg"] + ">"
                 node = field(tree, fld)
@@ -179,6 +230,8 @@ def _replay_chunk(hists):
     return steps, viol
 
 
+# the replay grammar makes g_len partial for its rule: <len> is ONE digit, bodies may have ten characters
+REPLAY_GRAMMAR = GRAMMAR.replace("<body> ::= <ch>{1,5}", "<body> ::= <ch>{1,10}").replace("<len> ::= <digit>+ := g_len(<body>)", "<len> ::= <digit> := g_len(<body>)")
 NESTED_RANDOM = LIB + GRAMMAR.replace("g_wrap(<ktag>)", "g_wrap(<tag>)")
 # searches run on the grammar without a generator-defined ARGUMENT: copies re-derive the argument trees of a field, and a
 # re-derived argument that is itself generator-defined is neither re-drawn consistently nor protected (finding F31, two
@@ -292,6 +345,11 @@ def run(tier, seed):
         for s in seeds:
             tid += 1
             jobs.append((cons, s, tid))
+    for scen in (PAIR,):
+        for cons in scen[2]:
+            for s in seeds + [seed + 100, seed + 101]:
+                tid += 1
+                jobs.append((cons, s, tid, scen))
     events = []
     for evs, exc in pmap(_search, jobs):
         events.extend(evs)
@@ -310,7 +368,7 @@ def run(tier, seed):
     bad = r.printed("BAD")
     seen = set()
     for b in (bad[0] if bad else []):
-        cons, s, _ = jobs[b["tid"] - 1]
+        cons, s = jobs[b["tid"] - 1][:2]
         label, text = labels[(b["tid"], b["idx"])]
         key = "field:%s:%s:%s" % (cons, label, b["clause"])
         if key in seen:
